@@ -11,7 +11,7 @@ TRUSTED = sc.TRUSTED
 ASSUMPTIONS = sc.ASSUMPTIONS + ['timers are fired by the driver at their deadline (time never skips a pending timer); '
                                 'same-instant expiry/arrival orders are both explored']
 M = sc.ALL_MSGS
-HOLDS = [0, 3, 4, 9, 30, 90, 180, 65535]
+HOLDS = [0, 3, 4, 5, 9, 20, 30, 90, 180, 65535]
 
 
 def open_with_hold(h, remote_as=65002):
@@ -30,7 +30,7 @@ def timers_due(d):
     return nd, out
 
 
-def run_schedule(kw, proposed, arrivals, timer_first, kinds):
+def run_schedule(kw, proposed, arrivals, timer_first, kinds, ka_delay=0):
     """arrivals: increasing absolute times (Fractions, seconds) after Established at which the peer sends
     kinds[i] ('keepalive' | 'update_ok' | 'update_bad').  Timers fire when due.  Returns (events, log, driver)
     log entries: (time, what)"""
@@ -47,8 +47,14 @@ def run_schedule(kw, proposed, arrivals, timer_first, kinds):
             elif o[0] == 2:
                 log.append((d.sim.now, 'lose', None, None))
         return r
-    for e in (('boot',), ('connok', 0), ('data', 0, open_with_hold(proposed)), ('data', 0, M['keepalive'])):
+    for e in (('boot',), ('connok', 0), ('data', 0, open_with_hold(proposed))):
         do(e)
+    if ka_delay and d.state()[0] == 5:
+        # the peer's first KEEPALIVE comes a little later than its OPEN (but before anything is due)
+        nd = d.sim.next_due()
+        if nd is None or d.sim.now + Fraction(ka_delay, 3) < nd:
+            do(('advance', ka_delay))
+    do(('data', 0, M['keepalive']))
     t0 = d.sim.now
     st = d.state()
     info = {'state': st[0], 'hold': st[1], 'ka3': st[2], 't0': t0, 'log0': len(log)}
@@ -139,8 +145,8 @@ def run(ctx):
     viol, traces, samples = [], [], []
     n = 0
     distinct = set()
-    cfgs = HOLDS if ctx.thorough else [0, 3, 9, 180]
-    props = HOLDS if ctx.thorough else [0, 3, 4, 90, 65535]
+    cfgs = HOLDS if ctx.thorough else [0, 3, 9, 20, 180]
+    props = HOLDS if ctx.thorough else [0, 3, 4, 5, 90, 65535]
     for cfg_h in cfgs:
         for prop in props:
             kw = {'hold_time': cfg_h}
@@ -161,19 +167,21 @@ def run(ctx):
                     for kinds in (['keepalive'], ['update_ok', 'keepalive', 'update_bad']):
                         if kinds[0] != 'keepalive' and (not arrivals or len(arrivals) > 12):
                             continue
-                        events, log, d, info = run_schedule(kw, prop, arrivals, timer_first, kinds)
-                        n += 1
-                        distinct.add((H, len(arrivals), timer_first, tuple(kinds), info['final_state']))
-                        for w in check_contract(kw, prop, arrivals, kinds, timer_first, events, log, d, info):
-                            viol.append({'what': w, 'config_hold': cfg_h, 'proposed': prop,
-                                         'arrivals_s': [str(a) for a in arrivals], 'timer_first': timer_first,
-                                         'kinds': kinds, 'known': None})
-                        if len(events) <= 60 and (ctx.thorough or rng.random() < 0.5):
-                            traces.append((kw, events))
-                        if len(samples) < 5 and arrivals and H:
-                            samples.append({'config_hold': cfg_h, 'proposed': prop, 'arrivals_s': [str(a) for a in arrivals[:4]],
-                                            'timer_first': timer_first, 'events': len(events),
-                                            'final_state': info['final_state']})
+                        for ka_delay in ((0, 2) if len(arrivals) <= 3 else (0,)):
+                            events, log, d, info = run_schedule(kw, prop, arrivals, timer_first, kinds, ka_delay)
+                            n += 1
+                            distinct.add((H, len(arrivals), timer_first, tuple(kinds), ka_delay, info['final_state']))
+                            arr = [a + Fraction(ka_delay, 3) for a in arrivals] if False else arrivals
+                            for w in check_contract(kw, prop, arrivals, kinds, timer_first, events, log, d, info):
+                                viol.append({'what': w, 'config_hold': cfg_h, 'proposed': prop,
+                                             'arrivals_s': [str(a) for a in arrivals], 'timer_first': timer_first,
+                                             'kinds': kinds, 'first_keepalive_delay_thirds': ka_delay, 'known': None})
+                            if len(events) <= 60 and (ctx.thorough or rng.random() < 0.5):
+                                traces.append((kw, events))
+                            if len(samples) < 5 and arrivals and H:
+                                samples.append({'config_hold': cfg_h, 'proposed': prop,
+                                                'arrivals_s': [str(a) for a in arrivals[:4]], 'timer_first': timer_first,
+                                                'events': len(events), 'final_state': info['final_state']})
     # OpenSent: the fixed 4-minute limit
     d = session.Driver()
     d.apply(('boot',))
